@@ -8,7 +8,7 @@ line-protocol front end for the C08 set/confirm/retry machine
   c08judge <tracking 0|1> <value> <min> <max> <event>=<out>,<out>… *
       -> pass | fail@<index of the first item that violates the statement>
 
-events:  c:<v>:<retries>:<timeout ms>   b   r:<value>:<min>:<max>   w:<ms>   t
+events:  c:<v>:<retries>:<timeout ms>   b   r:<value>:<min>:<max>   w:<ms>   t   k:<0|1> (tracking flag becomes)
 outputs: S:<v>:<t>  R:<t>  T:<t>  F:<t>  E:<t>
 -/
 namespace PlumVerif
@@ -30,6 +30,8 @@ def parseEv (tok : String) : Option Ev :=
   | ["r", v, lo, hi] => do pure (.report ⟨← v.toNat?, ← lo.toNat?, ← hi.toNat?⟩)
   | ["w", d] => do pure (.wait (← d.toNat?))
   | ["t"] => some .timer
+  | ["k", "0"] => some (.setTracking false)
+  | ["k", "1"] => some (.setTracking true)
   | _ => none
 
 def parseOut (tok : String) : Option Out :=
@@ -75,7 +77,7 @@ def setOps : List String → Option String
     let tracking ← SetM.parseBool tr
     let v ← v.toNat?; let lo ← lo.toNat?; let hi ← hi.toNat?
     let its ← items.mapM SetM.parseItem
-    pure (match C08.firstBad tracking (C08.Mon.init ⟨v, lo, hi⟩) 0 its with
+    pure (match C08.firstBad (C08.Mon.init tracking ⟨v, lo, hi⟩) 0 its with
       | none => "pass"
       | some k => s!"fail@{k}")
   | _ => none
